@@ -44,6 +44,8 @@ func checkC07(c *Ctx, r *Report) {
 
 	// producers of the model lists
 	const gmod = "(*core/pipeline.GleecePipeline).getModels"
+	// a field whose metadata cannot be built fails the struct: it is never silently left out of the component
+	ruleErrPropagates(c, r, "C07.b", "(*core/visitors.StructVisitor).VisitStructType", "(*core/visitors.StructVisitor).getFieldMeta", -1, "a failing getFieldMeta fails VisitStructType (no property silently missing from the component)")
 	ruleEach(c, r, "C07.b", gmod,
 		func(fi *FuncInfo) func(ast.Expr) bool {
 			return func(e ast.Expr) bool {
